@@ -118,7 +118,7 @@ func VerifHT_C15_reader_script() {
 }
 
 // Quick variants: the same oracle with a fixed call pattern each.
-func VerifH_C15_reader_next_read_next() { c15Script(10, 3, 0b010, false, false, 2) }
+func VerifH_C15_reader_next_read_next() { c15Script(8, 3, 0b010, false, false, 2) }
 func VerifHT_C15_reader_t_next_read_next() { c15Script(12, 3, 0b010, false, false, 5) }
 func VerifHT_C15_reader_t_next_read_read() { c15Script(14, 3, 0b110, false, false, 5) }
 func VerifHT_C15_reader_t_fault_next_next() { c15Script(12, 2, 0b00, true, false, 5) }
